@@ -26,6 +26,7 @@ class Peer:
     def reset(self, config):
         self.k = int(config.get("k", 1))
         self.slack = bool(config.get("slack", False))
+        self.uniform = bool(config.get("uniform", False))      # equal weight on the k nearest rows
         self.y_as = config.get("y_as", "matrix")
         self.log = []          # ('fit', fid, X, Y, params) / ('predict', fid, newdata, weights)
         self.forests = []
@@ -76,7 +77,7 @@ class Peer:
         N = len(forest.X)
         k = min(self.k, N)
         W = np.zeros((len(Q), N), dtype=float)
-        w = np.arange(k, 0, -1, dtype=float)
+        w = np.ones(k, dtype=float) if self.uniform else np.arange(k, 0, -1, dtype=float)
         w = w / w.sum()
         for lo in range(0, len(Q), 512):        # bounded memory for very large queries
             q = Q[lo:lo + 512]
